@@ -40,6 +40,9 @@ def make_target(lab):
         def echo(self, x):
             return x
 
+        def gen(self, n):
+            return (i for i in range(n))
+
         def boom(self, kind):
             if kind == "plain":
                 raise ValueError("plain failure")
@@ -125,6 +128,9 @@ def hostile_bytes(item, ser, rng, seq, base="invoke"):
     elif item == "reset_idle":
         data = b""
         close = "reset"
+    elif item == "stream_abandon":
+        data = inv("target", "gen", [4])
+        close = "abandon"
     elif item == "ann_badid":
         data = req[:40] + b"\xff\xfe\xfd\xfc" + req[44:]
     elif item == "ann_len_mismatch":
@@ -187,6 +193,9 @@ def run_scripts(scripts, servertype, timeout, seed, full=False):
     def fresh_lab():
         lab = L.Lab(servertype=servertype, commtimeout=timeout, poolsize=2 if full else 8)
         lab.daemon.register(make_target(lab)(), "target")
+        # streamed results: with a communication timeout configured they also get a lifetime and a linger period
+        lab.config.ITER_STREAM_LIFETIME = 1.0 if timeout else 0.0
+        lab.config.ITER_STREAM_LINGER = 0.5 if timeout else 0.0
         return lab
 
     def main():
@@ -270,6 +279,8 @@ def run_scripts(scripts, servertype, timeout, seed, full=False):
                         at.rc.send(data)
                         if close == "reset":
                             at.rc.abort()
+                        elif close == "abandon":
+                            at.rc.close()
                         elif close == "stall" and timeout:
                             stay_active(timeout + 1.0)       # silence: the server's own timeout must end the read
                             stalled.append(at.rc)            # ... and the silent peer stays connected until the end of the script
@@ -307,6 +318,12 @@ def run_scripts(scripts, servertype, timeout, seed, full=False):
                         elif close:
                             if close == "reset":
                                 at.rc.abort()
+                            elif close == "abandon":
+                                sc.quiesce()                 # the stream exists on the server now
+                                at.rc.close()
+                                sc.quiesce()
+                                sc.sleep(1.6)                # ... and outlives both its lifetime and its linger period before
+                                stay_active(1.0)             # the daemon does its housekeeping again
                             else:
                                 at.rc.close()
                             lab.log.append({"e": "Ended", "c": at.rc.cid})
@@ -393,7 +410,7 @@ def run(ctx):
     tlc.mc(ctx, "Daemon", cfg_text=c08.MC_CFG % (c08.SAMPLES[1], ctx.pick(8, 9)))
     s1 = tlc.gen(ctx, "Gen_Hostile", cfg_text=GEN_CFG % 1)
     s2 = tlc.gen(ctx, "Gen_Hostile", cfg_text=GEN_CFG % 2)
-    if len(s1) != 128 or len(s2) < 10000:
+    if len(s1) != 132 or len(s2) < 10000:
         raise util.MachineryError("attack script generation incomplete")
     walks = tlc.gen(ctx, "Gen_Hostile", cfg_text=GEN_CFG % 5, workers=1,
                     extra=("-simulate", "num=%d" % ctx.pick(500, 6000), "-depth", "7", "-seed", str(ctx.seed + 5)))
@@ -405,9 +422,9 @@ def run(ctx):
     for st in ("multiplex", "thread"):
         for tmo in (0.0, 3.0):
             js = [(s, sers[(i + (st == "thread") + (tmo > 0)) % 4]) for i, s in enumerate(scripts)
-                  if not ctx.quick or (i + (st == "thread") * 2 + (tmo > 0)) % 4 in (0, 1) or i < 128]
+                  if not ctx.quick or (i + (st == "thread") * 2 + (tmo > 0)) % 4 in (0, 1) or i < 132]
             if ctx.quick and tmo:
-                js = js[::3]
+                js = js[:len(s1)] + js[len(s1)::3]      # every single-item script in every configuration
             traces += run_scripts(js, st, tmo, ctx.seed)
             metas += [{"script": s, "ser": ser, "server": st, "timeout": tmo} for s, ser in js]
     # the thread server with an exhausted pool: the accept loop itself reads the first message of every refused connection
